@@ -2,7 +2,7 @@
 from .lib import *
 import re
 
-_INT_FROM = re.compile(r"^<(u|i)(8|16|32|64|128|size) as std::convert::(From|Into)<(u|i)(8|16|32|64|128|size)>>::(from|into)$")
+_INT_FROM = re.compile(r"^(<(u|i)(8|16|32|64|128|size) as std::convert::(From|Into)<(u|i)(8|16|32|64|128|size)>>::(from|into)|std::convert::num::<impl std::convert::From<(u|i)(8|16|32|64|128|size)> for (u|i)(8|16|32|64|128|size)>::from)$")
 
 
 def atom_of(e):
@@ -84,7 +84,7 @@ def poly(e):
                 return {(): v} if v else {}
             return {((op, _key(a), _key(b)),): 1}
         return None
-    if k == "call" and e[2] and _INT_FROM.match(strip_generics(e[1])):
+    if k == "call" and e[2] and (_INT_FROM.match(strip_generics(e[1])) or _INT_FROM.match(e[1])):
         return poly(e[2][0])
     if k in ("param", "field", "call", "payload", "local", "phi"):
         return {(atom_of(e),): 1}
